@@ -56,7 +56,7 @@ func leanBytes(s string) string {
 
 func genClientIP(r *Repo) (string, error) {
 	const file = "clientip/clientip.go"
-	f := r.Files[file]
+	f := r.File(file)
 	if f == nil {
 		return "", fmt.Errorf("%s not found", file)
 	}
